@@ -389,7 +389,19 @@ def plan(tier, seed):
         spec = gen.random_module_spec(r) if r.random() < 0.25 else gen.random_spec(r)
         spec['savepoint'] = dict(kind=r.choice(['t0', 'steps', 'steps']), n=r.choice([1, 3, 10, 30]))
         part = ['equal', 'independence', 'perturb'][i % 3] if i % 10 else 'perturb'
-        out[variant].append(dict(spec=spec, part=part, k=r.choice([1, 5, 25]), variant=variant))
+        kk = r.choice([1, 5, 25])
+        if part == 'equal' and i % 4 == 1:
+            # enough copies of states that need the (non-persisted) TREE for their collision search only - tree / linetree collisions without tree
+            # gravity: the copy has to rebuild the tree before its first search, and the two runs must register collisions in the same steps
+            rc_ = core.rng(PROPERTY, seed, 'treecoll', i)
+            for _t in range(200):
+                sp_ = gen.random_module_spec(rc_)
+                if sp_.get('collision') in ('tree', 'linetree') and sp_.get('gravity') != 'tree':
+                    spec = sp_
+                    spec['savepoint'] = dict(kind='steps', n=rc_.choice([1, 3, 10]))
+                    kk = 25
+                    break
+        out[variant].append(dict(spec=spec, part=part, k=kk, variant=variant))
     return out
 
 
